@@ -173,6 +173,61 @@ def run_atoms(names_list: List[Tuple[Tuple[str, ...], str]], t: Tally, opts: Opt
     return out
 
 
+def _closure(files: Dict[str, str], start: str) -> List[str]:
+    import re
+    seen, todo = [], [start]
+    while todo:
+        f = todo.pop()
+        if f in seen or f not in files:
+            continue
+        seen.append(f)
+        todo += re.findall(r'import\s+"([^"]+)"\s*;', files[f])
+    return sorted(seen)
+
+
+def run_partial(t: Tally) -> List[Violation]:
+    """protoc is asked for ONE file of the multi-file program at a time; the other files reach the
+    plugin only as imports.  The requested file and everything it imports must come out complete."""
+    import warnings
+    files = dict(AT.MULTI_FILES)
+    out: List[Violation] = []
+    for req in sorted(files):
+        res = plugin.compile_protos(files, tag="c03p", request=[req])
+        t.inc("programs")
+        case = {"kind": "partial", "request": req}
+        try:
+            if res.rc != 0:
+                out.append(Violation(["plugin", "plugin-failed", "partial-request"], f"request {req}: {res.stderr[-300:]}", case))
+                continue
+            need = _closure(files, req)
+            mt = Matcher(res)
+            probs = mt.check_files(need)
+            t.inc("compared", mt.compared)
+            for oracle, where, detail in probs[:1]:
+                out.append(Violation(["plugin", oracle, "partial-request"], f"request {req} (with imports {need}): {where}: {detail}"[:400], case))
+            if probs:
+                continue
+            try:
+                pkgs = sorted({(files[f].split("package ")[1].split(";")[0] if "package " in files[f] else "") for f in need})
+                for pkg in pkgs:
+                    mod = mt.module(pkg)
+                    for cname, cls in sorted(vars(mod).items()):
+                        if isinstance(cls, type) and issubclass(cls, betterproto.Message) and cls.__module__ == mod.__name__:
+                            with warnings.catch_warnings():
+                                warnings.simplefilter("ignore")
+                                inst = cls()
+                                if bytes(inst) != b"" or cls().parse(b"") != inst:
+                                    raise AssertionError(f"fresh {cname} misbehaves")
+                                inst.to_dict()
+                            t.inc("compared")
+            except Exception as e:
+                out.append(Violation(["plugin", "generated-unusable", "partial-request"],
+                                     f"request {req}: {type(e).__name__}: {e}"[:300], case))
+        finally:
+            res.cleanup()
+    return out
+
+
 def run_multi(t: Tally) -> List[Violation]:
     files = dict(AT.MULTI_FILES)
     res = plugin.compile_protos(files, tag="c03m")
@@ -344,6 +399,7 @@ def plan(tier: str):
             items.append(("corpus", d))
     items.append(("bundled", None))
     items.append(("multi", None))
+    items.append(("partial", None))
     return items
 
 
@@ -361,6 +417,8 @@ def _shard(shard: int, nshards: int, tier: str) -> Tally:
                 vs = run_corpus(arg, t)
             elif kind == "multi":
                 vs = run_multi(t)
+            elif kind == "partial":
+                vs = run_partial(t)
             else:
                 vs = check_bundled(t)
         except HarnessError:
@@ -429,4 +487,6 @@ def replay(case: dict) -> List[Violation]:
         return run_corpus(case["dir"], t)
     if case["kind"] == "multi":
         return run_multi(t)
+    if case["kind"] == "partial":
+        return [v for v in run_partial(t) if v.case.get("request") == case.get("request")]
     return check_bundled(t)
